@@ -1,7 +1,7 @@
 """C10 — A compiled query's string form recompiles to an equivalent query."""
 from __future__ import annotations
 
-from .. import astdump, core, qeval, qgen, qpool
+from .. import astdump, core, qeval, qgen, qpool, surface
 
 LEVEL = "proof"
 CLAIM = {
@@ -70,6 +70,51 @@ def _norm(x):
 def evaluate(ctx, cases):
     import jsonpath
 
+    env = jsonpath.DEFAULT_ENV
+    # --- token-level correspondence with the Lean surface model (printer tokens, parser, round trip)
+    reqs, meta = [], []
+    for c in cases:
+        o = qeval.compile_outcome(c["text"])
+        if "err" in o:
+            continue
+        try:
+            q = astdump.dump_query(o["ok"])
+            tl = surface.impl_tokens(env, c["text"])
+            ts = surface.impl_tokens(env, str(o["ok"]))
+        except (core.Unencodable, Exception):  # noqa: BLE001
+            ctx.count("surface-skip")
+            continue
+        paths = [q["first"]] + [p for _, p in q["rest"]]
+        src_ops = [x for x in tl if isinstance(x, str)]
+        str_ops = [x for x in ts if isinstance(x, str)]
+        src_toks = [x for x in tl if not isinstance(x, str)]
+        str_toks = [x for x in ts if not isinstance(x, str)]
+        if src_ops != [op for op, _ in q["rest"]] or str_ops != src_ops or len(src_toks) != len(paths) or len(str_toks) != len(paths):
+            ctx.violation("the string form must preserve the union/intersection structure of a compound query", {"text": c["text"], "str": str(o["ok"])}, str_ops, src_ops)
+            continue
+        for p, t_src, t_str in zip(paths, src_toks, str_toks):
+            reqs.append({"op": "sf.ptoks", "path": p}); meta.append((c, "ptoks", p, t_str))
+            reqs.append({"op": "sf.parse", "tokens": t_src}); meta.append((c, "parse", p, t_src))
+    outs = ctx.driver.run(reqs, jobs=ctx.jobs)
+    for (c, what, p, toks), m in zip(meta, outs):
+        if what == "ptoks":
+            ctx.count("surface:printer")
+            bare = any(isinstance(t, list) and t[0] == "SLICE" and (i == 0 or toks[i - 1] not in ("LBRACKET", "COMMA")) for i, t in enumerate(toks))
+            if bare:
+                ctx.count("surface:legacy-bare-slice")   # `$.1:2` style slices outside brackets: not distinguished by the evaluation AST
+                continue
+            if m["tokens"] != toks:
+                ctx.mismatch("sf.ptoks (tokens of str(query))", {"text": c["text"], "path": p}, toks, m["tokens"])
+            if m["parsed"] and m["reparse"] != {"ok": {"segs": m["norm"], "fake": p["fake"]}}:
+                ctx.violation("model: parsing the printed tokens does not give back the (normalised) query (proof obligation parse_ptoks)", {"text": c["text"], "path": p}, m["reparse"], m["norm"])
+            if not m["parsed"]:
+                ctx.count("surface:outside-Parsed")
+        else:
+            ctx.count("surface:parser")
+            want = {"ok": {"segs": p["segs"], "fake": p["fake"]}}
+            if m != want:
+                ctx.mismatch("sf.parse (parser model on the lexer's tokens)", {"text": c["text"], "tokens": toks}, want, m)
+    # --- the property on the implementation
     for c in cases:
         text = c["text"]
         o = qeval.compile_outcome(text)
